@@ -452,6 +452,9 @@ func (e *engine) mergeDelta() error {
 			return fmt.Errorf("merging with |target vars| != 1 not implemented: %v", fundep.Target)
 		}
 		targetColumn := fundep.Target[0]
+		if len(fundep.Source) > pred.Arity || targetColumn >= pred.Arity {
+			return fmt.Errorf("fundep %v does not fit predicate %v", fundep, pred)
+		}
 
 		// Query existing facts whose columns agree on fundep.Source values.
 		queryArgs := make([]ast.BaseTerm, pred.Arity, pred.Arity)
